@@ -4320,9 +4320,21 @@ impl Handler {
         };
         let effective_auth = refreshed_identity.as_ref().or(auth);
 
-        // Authorization check: if auth is provided, validate the statement
+        // A request may carry a whole program. Every check below looks at each of its
+        // statements (split exactly as the executor splits them), not only at the text as
+        // a whole: a multi-line program does not parse as one statement, and a leading
+        // meta command used to hide the lines after it.
+        let statements: Vec<statement::Statement> =
+            join_continuation_lines(&strip_comments(trimmed))
+                .lines()
+                .map(str::trim)
+                .filter(|line| !line.is_empty())
+                .filter_map(|line| statement::parse_statement(line).ok())
+                .collect();
+
+        // Authorization check: if auth is provided, validate every statement
         if let Some(identity) = effective_auth {
-            if let Ok(ref stmt) = statement::parse_statement(trimmed) {
+            for stmt in &statements {
                 crate::auth::authorize_statement(&identity.role, stmt)?;
             }
         }
@@ -4346,7 +4358,7 @@ impl Handler {
                 ));
             }
         }
-        if let Ok(ref stmt) = statement::parse_statement(trimmed) {
+        for stmt in &statements {
             match stmt {
                 statement::Statement::Meta(
                     statement::MetaCommand::KgUse(name)
@@ -4365,7 +4377,11 @@ impl Handler {
         // Per-KG authorization: check if user has access to the target KG.
         if let Some(identity) = effective_auth {
             if identity.role != crate::auth::Role::Admin {
-                if let Ok(ref stmt) = statement::parse_statement(trimmed) {
+                // `.kg use` / `.kg create` switch the graph the following statements act on
+                let mut stmt_kg: Option<String> = current_kg.map(str::to_string);
+                // a graph created earlier in this program belongs to its creator
+                let mut created_here: Vec<String> = Vec::new();
+                for stmt in &statements {
                     // Determine which KG the operation targets
                     let target_kg = match stmt {
                         statement::Statement::Meta(
@@ -4389,17 +4405,30 @@ impl Handler {
                             | statement::MetaCommand::Status,
                         ) => None,
                         // All other statements operate on the current KG
-                        _ => current_kg,
+                        _ => stmt_kg.as_deref(),
                     };
 
                     if let Some(kg) = target_kg {
-                        if let Some(kg_role) =
+                        if created_here.iter().any(|created| created == kg) {
+                            // creator acts as owner of the graph it just created
+                        } else if let Some(kg_role) =
                             self.get_kg_role_for_user(kg, &identity.username, &identity.role)
                         {
                             crate::auth::authorize_kg_operation(&kg_role, stmt)?;
                         } else {
                             return Err("Access denied".to_string());
                         }
+                    }
+
+                    match stmt {
+                        statement::Statement::Meta(statement::MetaCommand::KgUse(name)) => {
+                            stmt_kg = Some(name.clone());
+                        }
+                        statement::Statement::Meta(statement::MetaCommand::KgCreate(name)) => {
+                            created_here.push(name.clone());
+                            stmt_kg = Some(name.clone());
+                        }
+                        _ => {}
                     }
                 }
             }
